@@ -202,6 +202,47 @@ def rule_f(repo, prop='C06'):
             elif isinstance(nd, ast.Call) and isinstance(nd.func, ast.Attribute) and nd.func.attr in MUTATORS and isinstance(nd.func.value, ast.Name) and \
                     nd.func.value.id not in local and nd.func.value.id in module_names:
                 hits.append((nd, nd.func.value.id))
+        # mutable default arguments are module-level state in disguise: the default object is created once, when the `def` is executed, and every call that does not
+        # pass the argument works on that one object -- appending to it / storing into it / returning it carries results from call to call
+        a_ = fn.node.args
+        pos = list(a_.posonlyargs) + list(a_.args)
+        defaults = list(zip(pos[len(pos) - len(a_.defaults):], a_.defaults)) + [(k_, d_) for k_, d_ in zip(a_.kwonlyargs, a_.kw_defaults) if d_ is not None]
+        for arg, dflt in defaults:
+            mutable = isinstance(dflt, (ast.List, ast.Dict, ast.Set, ast.ListComp, ast.DictComp, ast.SetComp)) or \
+                (isinstance(dflt, ast.Call) and (getattr(dflt.func, 'id', None) in ('list', 'dict', 'set', 'bytearray') or
+                                                  (isinstance(dflt.func, ast.Attribute) and dflt.func.attr in ('zeros', 'ones', 'empty', 'array', 'eye', 'TT'))))
+            if not mutable:
+                continue
+            rebound = any(isinstance(nd, ast.Assign) and any(isinstance(t, ast.Name) and t.id == arg.arg for t in nd.targets) for nd in ast.walk(fn.node))
+            if not fn.public:
+                # a helper all of whose call sites pass the argument never uses its default
+                idx = [x.arg for x in pos].index(arg.arg) - (1 if fn.cls is not None else 0) if arg in pos else None
+                sites = [c for m_ in repo.modules.values() for c in ast.walk(m_.tree) if isinstance(c, ast.Call) and
+                         (getattr(c.func, 'id', None) == fn.name or getattr(c.func, 'attr', None) == fn.name)]
+                if sites and all((idx is not None and len(c.args) > idx) or any(k_.arg == arg.arg for k_ in c.keywords) or any(isinstance(x, ast.Starred) for x in c.args) or
+                                 any(k_.arg is None for k_ in c.keywords) for c in sites):
+                    continue
+            found = {}
+            for nd in ast.walk(fn.node):
+                hit = None
+                if isinstance(nd, (ast.Assign, ast.AugAssign)):
+                    tgts = nd.targets if isinstance(nd, ast.Assign) else [nd.target]
+                    if any((isinstance(t, ast.Subscript) and root(t) == arg.arg) or (isinstance(nd, ast.AugAssign) and isinstance(t, ast.Name) and t.id == arg.arg) for t in tgts):
+                        hit = 'is modified in place'
+                elif isinstance(nd, ast.Call) and isinstance(nd.func, ast.Attribute) and nd.func.attr in MUTATORS and isinstance(nd.func.value, ast.Name) and nd.func.value.id == arg.arg:
+                    hit = 'is modified in place'
+                elif isinstance(nd, ast.Return) and nd.value is not None and any(isinstance(x, ast.Name) and x.id == arg.arg for x in
+                                                                                  ([nd.value] + (list(nd.value.elts) if isinstance(nd.value, (ast.Tuple, ast.List)) else []))):
+                    hit = 'is returned'
+                if hit and not rebound:
+                    found.setdefault(hit, nd)
+            for hit in ('is modified in place', 'is returned'):
+                if hit in found:
+                    nd = found[hit]
+                    findings.append(Finding(prop, 'R-f', fn.where, f'{arg.arg}={norm_text(dflt, 40)}: {norm_text(nd, 80)}', f'the mutable default `{arg.arg}={norm_text(dflt, 40)}` of `{fn.qual}` {hit} '
+                                            f'({repo.relfile(fn.file)}:{nd.lineno}): the default object exists once per process, so every call that relies on the default continues with what '
+                                            f'earlier calls left in it (and hands out the same object again)', fn.file, nd.lineno))
+                    break
         for nd, name in hits:
             findings.append(Finding(prop, 'R-f', fn.where, norm_text(nd, 120), f'writes the module-level object `{name}` ({repo.relfile(fn.file)}:{nd.lineno}): results are kept between calls '
                                     f'(a later call can return a stale value, and two calls can hand out one and the same object)', fn.file, nd.lineno))
@@ -479,6 +520,8 @@ def run_controls(run):
     run.control('negative control: per-iteration copy is silent (controls/c06 good_results)', not any('good_results' in x.where for x in fe))
     ff, _ = rule_f(crepo)
     run.control('R-f: memoised constructor writes a module-level dict (controls/c06 bad_cached_eye)', any('bad_cached_eye' in x.where for x in ff))
+    run.control('R-f: mutable default argument filled and returned (controls/c06 bad_collect)', any('bad_collect' in x.where for x in ff))
+    run.control('negative control: a private helper whose call sites all pass the argument is silent (controls/c06 _good_collect_helper)', not any('good_collect' in x.where for x in ff))
     run.control('negative control: reading a module constant / writing a local dict is silent (controls/c06 good_reads_module_constant)', not any('good_reads_module_constant' in x.where for x in ff))
 
 
